@@ -44,6 +44,7 @@ func TrapSignal(cb func()) {
 }
 
 func Exit(s string) {
+	verifExit(s)
 	fmt.Printf(s + "\n")
 	os.Exit(1)
 }
@@ -102,17 +103,26 @@ func WriteFileAtomic(filePath string, newBytes []byte, mode os.FileMode) error {
 		if err != nil {
 			return fmt.Errorf("Could not read file %v. %v", filePath, err)
 		}
+		if err := VerifPoint("atomic-bak", filePath); err != nil {
+			return err
+		}
 		err = ioutil.WriteFile(filePath+".bak", fileBytes, mode)
 		if err != nil {
 			return fmt.Errorf("Could not write file %v. %v", filePath+".bak", err)
 		}
 	}
 	// Write newBytes to filePath.new
+	if err := VerifPoint("atomic-new", filePath); err != nil {
+		return err
+	}
 	err := ioutil.WriteFile(filePath+".new", newBytes, mode)
 	if err != nil {
 		return fmt.Errorf("Could not write file %v. %v", filePath+".new", err)
 	}
 	// Move filePath.new to filePath
+	if err := VerifPoint("atomic-rename", filePath); err != nil {
+		return err
+	}
 	err = os.Rename(filePath+".new", filePath)
 	return err
 }
